@@ -139,6 +139,7 @@ type Frame struct {
 	regionFrom, regionTo string
 	regionActive         bool
 	region               *Region
+	callsiteWhy          map[*Callsite]string
 	regionExits          []retInfo
 	nameOverride map[string]*SVal
 }
@@ -474,6 +475,7 @@ func (f *Frame) cutLoop(li *loopInfo, phiIn map[*ssa.Phi]*SVal) {
 			g.havocNames(f.curState, ms)
 		}
 	}
+	g.advanceClock(f.curReach, li.preSt, f.curState)
 	li.headSt = g.clone(f.curState)
 	li.phiEnv = map[*ssa.Phi]*SVal{}
 	for _, ins := range li.header.Instrs {
@@ -769,6 +771,10 @@ func (f *Frame) checkCallsites(ci ssa.CallInstruction) {
 					if se, ok := r.(specErr); ok {
 						// the clause does not type-check at this call site (e.g. a different argument type): not this site
 						g.note("callsite clause %q not applicable at %s: %s", cs.C.Text, f.pos(ci.Pos()), string(se))
+						if f.callsiteWhy == nil {
+							f.callsiteWhy = map[*Callsite]string{}
+						}
+						f.callsiteWhy[cs] = string(se)
 						skipped = true
 						return
 					}
@@ -1412,21 +1418,85 @@ func mapFams(mt types.Type) (dom, val, ln string) {
 
 func (g *Gen) mapKeySort(mt *types.Map) Sort {
 	kt := mt.Key()
+	if n := packedKeyLen(kt); n > 0 {
+		return Sort(fmt.Sprintf("(_ BitVec %d)", 8*n))
+	}
 	if !isScalarType(kt) {
 		panic(unsupported("map with composite key type " + kt.String()))
 	}
 	return g.W.scalarSort(kt)
 }
 
+// packedKeyLen: map keys of type [N]byte (N <= 32) are packed into one bit-vector of 8N bits - exactly
+// Go's element-wise key equality, and a key sort every back end accepts (arrays indexed by arrays are not).
+func packedKeyLen(kt types.Type) int64 {
+	at, ok := kt.Underlying().(*types.Array)
+	if !ok || at.Len() < 1 || at.Len() > 32 {
+		return 0
+	}
+	if b, ok := at.Elem().Underlying().(*types.Basic); !ok || (b.Kind() != types.Uint8 && b.Kind() != types.Int8) {
+		return 0
+	}
+	return at.Len()
+}
+
+// unpackArr: the array value (byte i = bits [8(n-i)-1 : 8(n-1-i)]) of a packed [n]byte.
+func unpackArr(n int64, packed string, arrSrt Sort) string {
+	tm := fmt.Sprintf("((as const %s) #x00)", arrSrt)
+	for i := int64(0); i < n; i++ {
+		hi := 8*(n-i) - 1
+		tm = sStore(tm, bv64(i), fmt.Sprintf("((_ extract %d %d) %s)", hi, hi-7, packed))
+	}
+	return tm
+}
+
+// packedVal: a [n]byte value given by its packed bit-vector.
+func (g *Gen) packedVal(t types.Type, packed string) *SVal {
+	n := packedKeyLen(t)
+	return &SVal{T: t, K: KArray, Term: unpackArr(n, packed, g.W.scalarSort(t)), Packed: packed}
+}
+
+// mapKey: the term under which key is looked up in a map of type mt.
+func (g *Gen) mapKey(mt *types.Map, key *SVal) string {
+	n := packedKeyLen(mt.Key())
+	if n == 0 {
+		return key.Term
+	}
+	if key.Packed != "" {
+		return key.Packed
+	}
+	if n == 1 {
+		return sSel(key.Term, bv64(0))
+	}
+	kt := key.Term
+	if g.inQuant == 0 && len(kt) > 40 {
+		kt = g.define("keyarr", g.W.scalarSort(mt.Key()), kt)
+	}
+	parts := make([]string, 0, n)
+	for i := int64(0); i < n; i++ {
+		parts = append(parts, sSel(kt, bv64(i)))
+	}
+	return "(concat " + strings.Join(parts, " ") + ")"
+}
+
 func (f *Frame) mapRead(st *State, m *SVal, mt *types.Map, key *SVal) (dom string, val *SVal) {
 	g := f.g
 	ks := g.mapKeySort(mt)
 	fd, fv, _ := mapFams(mt)
+	// keys looked up in the program, in a goal or in a hypothesis instance are instantiation candidates
+	// for hypotheses quantified over keys of the same sort
+	if g.inQuant == 0 && key.Const == nil && len(key.Term) <= 2500 {
+		g.addNamed(key)
+	}
 	hd := g.heapGet(st, fd, arrSort(SBV64, arrSort(ks, SBool)))
-	dom = sAnd(sNot(sEq(m.Term, bv64(0))), sSel(sSel(hd, m.Term), key.Term))
+	kterm := g.mapKey(mt, key)
+	if g.inQuant == 0 && kterm != key.Term {
+		kterm = g.define("mapkey", ks, kterm)
+	}
+	dom = sAnd(sNot(sEq(m.Term, bv64(0))), sSel(sSel(hd, m.Term), kterm))
 	val = g.W.buildVal(mt.Elem(), "", func(path string, s Sort) string {
 		h := g.heapGet(st, fv+"#"+path, arrSort(SBV64, arrSort(ks, s)))
-		return sSel(sSel(h, m.Term), key.Term)
+		return sSel(sSel(h, m.Term), kterm)
 	})
 	return
 }
@@ -1477,17 +1547,21 @@ func (f *Frame) mapStore(m *SVal, mt *types.Map, key, val *SVal, pos token.Pos) 
 	f.checkMapWrite(m, mt, pos)
 	ds := arrSort(SBV64, arrSort(ks, SBool))
 	hd := g.heapGet(f.curState, fd, ds)
-	was := sSel(sSel(hd, m.Term), key.Term)
+	kterm := g.mapKey(mt, key)
+	if kterm != key.Term {
+		kterm = g.define("mapkey", ks, kterm)
+	}
+	was := sSel(sSel(hd, m.Term), kterm)
 	ls := arrSort(SBV64, SBV64)
 	hl := g.heapGet(f.curState, fl, ls)
 	g.heapSet(f.curState, fl, ls, sStore(hl, m.Term, sApp("bvadd", sSel(hl, m.Term), sIte(was, bv64(0), bv64(1)))))
-	g.heapSet(f.curState, fd, ds, sStore(hd, m.Term, sStore(sSel(hd, m.Term), key.Term, "true")))
+	g.heapSet(f.curState, fd, ds, sStore(hd, m.Term, sStore(sSel(hd, m.Term), kterm, "true")))
 	lv := g.W.leaves(mt.Elem())
 	fvs := flatten(val)
 	for i, l := range lv {
 		srt := arrSort(SBV64, arrSort(ks, l.Sort))
 		h := g.heapGet(f.curState, fv+"#"+l.Path, srt)
-		g.heapSet(f.curState, fv+"#"+l.Path, srt, sStore(h, m.Term, sStore(sSel(h, m.Term), key.Term, fvs[i])))
+		g.heapSet(f.curState, fv+"#"+l.Path, srt, sStore(h, m.Term, sStore(sSel(h, m.Term), kterm, fvs[i])))
 	}
 }
 
@@ -1498,12 +1572,16 @@ func (f *Frame) mapDelete(m *SVal, mt *types.Map, key *SVal, pos token.Pos) {
 	f.checkMapWrite(m, mt, pos)
 	ds := arrSort(SBV64, arrSort(ks, SBool))
 	hd := g.heapGet(f.curState, fd, ds)
-	was := sAnd(sNot(sEq(m.Term, bv64(0))), sSel(sSel(hd, m.Term), key.Term))
+	kterm := g.mapKey(mt, key)
+	if kterm != key.Term {
+		kterm = g.define("mapkey", ks, kterm)
+	}
+	was := sAnd(sNot(sEq(m.Term, bv64(0))), sSel(sSel(hd, m.Term), kterm))
 	ls := arrSort(SBV64, SBV64)
 	hl := g.heapGet(f.curState, fl, ls)
 	g.heapSet(f.curState, fl, ls, sStore(hl, m.Term, sApp("bvsub", sSel(hl, m.Term), sIte(was, bv64(1), bv64(0)))))
 	// deleting from a nil map is a no-op; the nil map's domain stays empty because lookups guard on m != 0
-	g.heapSet(f.curState, fd, ds, sStore(hd, m.Term, sStore(sSel(hd, m.Term), key.Term, "false")))
+	g.heapSet(f.curState, fd, ds, sStore(hd, m.Term, sStore(sSel(hd, m.Term), kterm, "false")))
 }
 
 func (f *Frame) mapClear(m *SVal, mt *types.Map, pos token.Pos) {
